@@ -4,27 +4,36 @@
             inputs): (a) clamp_to_bounds post-conditions, (b) adjust_exclusion_bounds /
             check_exclusion_bounds_overlap post-conditions, (c) the inductive step of the
             _calc_target_power sweep: from any state satisfying the invariant, one iteration with any
-            proposal shape re-establishes it; the prologue establishes it.
-  C03.PURE  _calc_target_power reads/writes no instance state; calculate_target_power passes it the
-            bucket and the bounds argument and recomputes whenever a bucket exists.
-  C03.ORD   both sweeps iterate sorted(bucket, reverse=True) without a key; Proposal ordering,
-            equality and hash use the same (priority, source_id) key.
-  C03.REPL  latest-per-actor: the equal element is removed before add().
-  C03.AGE   drop_old_proposals removes every proposal older than max_age from every bucket; the
-            actor calls it for both groups.
+            proposal shape re-establishes it; the prologue establishes it.  The roles of the sweep's
+            state variables (running lower / upper bound, zone, target) are bound by dataflow: what
+            reaches clamp_to_bounds' parameters, what the epilogue returns, what the prologue stores.
+            Private helpers of the class are interpreted.
+  C03.PURE  _calc_target_power and every helper it reaches use `self` only to call further methods;
+            on every symbolic path of calculate_target_power the target is computed from (this
+            group's bucket, the bounds argument), the only bucket test is `is None`, and only the
+            fresh value is stored / returned.
+  C03.ORD   both sweeps iterate sorted(bucket, reverse=True) without a key; Proposal ordering and
+            equality are decided in the order domain to be the lexicographic order / equality on
+            (priority, source_id); <, ==, hash read exactly these fields.
+  C03.REPL  latest-per-actor: on every symbolic path the equal element is removed before add().
+  C03.AGE   drop_old_proposals, executed on a small-scope model of the buckets (Python set
+            semantics, ages in the order domain), removes exactly the proposals older than max_age
+            from every bucket and touches nothing else; the actor calls it for both groups.
 """
 from __future__ import annotations
 
 import ast
 import copy
-from typing import Any, Callable
+from typing import Any
 
-from ..engine.absint import Infeasible, Obj
-from ..engine.cfg import CFG
+from ..engine.absint import Obj
+from ..engine.normalize import inline_helpers, positional
 from ..engine.order import Atom, OrderInterp
 from ..engine.report import AnalysisError, Run
-from ..engine.resolver import FuncInfo, Program, body_walk, find_installed_source, walk_no_nested
-from ..engine.util import canon, canon_total, find_calls, method_call, nodes_with_call, u
+from ..engine.resolver import ClassInfo, FuncInfo, Program, body_walk, find_installed_source, parent_map
+from ..engine.sympath import Path as SymPath, SymExec, sym_paths
+from ..engine.util import u
+from ._c03_util import AgeInterp, Lin, Poison, RoleInterp, SetV, is_property, is_static, resolve_local, seg, self_obj, splice
 
 BOUNDS = "microgrid._power_managing._bounds"
 MAT = "microgrid._power_managing._matryoshka"
@@ -90,7 +99,9 @@ def check_clamp(run: Run, prog: Program) -> None:
     fn = prog.func(f"{BOUNDS}:clamp_to_bounds")
     run.analysed(fn.qual)
     mod = prog.module(BOUNDS)
-    it = OrderInterp(prog, mod)
+    if len(fn.params) != 4:
+        raise AnalysisError(f"{fn.qual}: expected (value, lower_bound, upper_bound, exclusion_bounds)")
+    it = RoleInterp(prog, mod)
     ctx: dict[str, Any] = {}
 
     def make_args() -> dict[str, Any]:
@@ -99,7 +110,7 @@ def check_clamp(run: Run, prog: Program) -> None:
         it.assume("<=", L, U)
         excl = mk_excl(it, it.choose(2, "exclusion zone present") == 1)
         ctx.update(v=v, L=L, U=U, excl=excl)
-        return {"value": v, "lower_bound": L, "upper_bound": U, "exclusion_bounds": excl}
+        return dict(zip(fn.params, (v, L, U, excl)))
 
     def post(res: Any) -> Any:
         if not (isinstance(res, tuple) and len(res) == 2):
@@ -151,8 +162,6 @@ def check_clamp(run: Run, prog: Program) -> None:
         raise AnalysisError(f"clamp_to_bounds: only {len(outs)} abstract paths")
 
 
-
-
 def _report_orderings(run: Run, rule: str, fn: FuncInfo, outs: list[Any], what: str) -> None:
     n_bad = 0
     for out in outs:
@@ -178,14 +187,16 @@ def _report_orderings(run: Run, rule: str, fn: FuncInfo, outs: list[Any], what: 
 
 
 def _return_of(fn: FuncInfo, out: Any) -> str:
-    return f"{fn.name} result {out.value!r}"
+    return f"{fn.name} result {out.value!r}"[:300]
 
 
 def check_adjust(run: Run, prog: Program) -> None:
     fn = prog.func(f"{BOUNDS}:adjust_exclusion_bounds")
     run.analysed(fn.qual)
     run.analysed(f"{BOUNDS}:check_exclusion_bounds_overlap")
-    it = OrderInterp(prog, prog.module(BOUNDS))
+    if len(fn.params) != 3:
+        raise AnalysisError(f"{fn.qual}: expected (lower_bound, upper_bound, exclusion_bounds)")
+    it = RoleInterp(prog, prog.module(BOUNDS))
     ctx: dict[str, Any] = {}
 
     def make_args() -> dict[str, Any]:
@@ -194,7 +205,7 @@ def check_adjust(run: Run, prog: Program) -> None:
         it.assume("<=", L, U)
         excl = mk_excl(it, it.choose(2, "exclusion zone present") == 1)
         ctx.update(L=L, U=U, excl=excl)
-        return {"lower_bound": L, "upper_bound": U, "exclusion_bounds": excl}
+        return dict(zip(fn.params, (L, U, excl)))
 
     def post(res: Any) -> Any:
         if not (isinstance(res, tuple) and len(res) == 2 and all(isinstance(r, Atom) for r in res)):
@@ -277,63 +288,257 @@ def mk_proposal(it: OrderInterp, tag: str = "p", shapes: list[tuple[int, int, in
                priority=1, source_id=tag)
 
 
-def parts_independent(loop: ast.For) -> bool:
-    """In one iteration: the statements that may assign the target do not assign the running
-    bounds, and the other statements neither read nor assign the target."""
-    tgt_stmts, other = [], []
-    for s in loop.body:
-        names_w = {n.id for n in ast.walk(s) if isinstance(n, ast.Name) and isinstance(n.ctx, ast.Store)}
-        (tgt_stmts if "target_power" in names_w else other).append(s)
-    if len(tgt_stmts) != 1:
-        return False
-    w = {n.id for n in ast.walk(tgt_stmts[0]) if isinstance(n, ast.Name) and isinstance(n.ctx, ast.Store)}
-    if w & {"lower_bound", "upper_bound", "exclusion_bounds"}:
-        return False
-    if any(isinstance(n, (ast.Break, ast.Continue, ast.Return)) for n in ast.walk(tgt_stmts[0])):
-        return False
-    for s in other:
-        if any(isinstance(n, ast.Name) and n.id == "target_power" for n in ast.walk(s)):
+STATE = "__state__"
+
+
+def _state_fn(name: str, params: list[str], body: list[ast.stmt], ret: list[str]) -> ast.FunctionDef:
+    """synth() whose final return is marked, so that an early `return` of the body is recognisable."""
+    fn = synth(name, params, body, ret)
+    fn.body[-1].value.elts.insert(0, ast.Constant(STATE))  # type: ignore[attr-defined]
+    ast.fix_missing_locations(fn)
+    return fn
+
+
+def _is_state(res: Any, n: int) -> bool:
+    return isinstance(res, tuple) and len(res) == n + 1 and res[0] == STATE
+
+
+def _stored(node: ast.AST) -> set[str]:
+    out = {n.id for n in ast.walk(node) if isinstance(n, ast.Name) and isinstance(n.ctx, (ast.Store, ast.Del))}
+    out |= {n.name for n in ast.walk(node) if isinstance(n, (ast.MatchAs, ast.MatchStar)) and n.name}
+    return out
+
+
+def _loaded(node: ast.AST) -> set[str]:
+    return {n.id for n in ast.walk(node) if isinstance(n, ast.Name) and isinstance(n.ctx, ast.Load)}
+
+
+class Sweep:
+    """Anatomy of `_calc_target_power`: prologue / proposal loop / epilogue and the roles of the
+    loop-carried variables, bound by dataflow (never by their names)."""
+
+    def __init__(self, prog: Program, fn: FuncInfo) -> None:
+        self.prog, self.fn = prog, fn
+        self.mod = fn.module
+        if fn.cls is None or len(fn.params) != 3:
+            raise AnalysisError(f"{fn.qual}: expected a method (self, proposals, system_bounds)")
+        self.cls = fn.cls
+        self.params = fn.params
+        self.pro, self.loop, self.epi = split_sweep(fn)
+        if self.loop.orelse or not isinstance(self.loop.target, ast.Name):
+            raise AnalysisError(f"{fn.qual}: proposal loop with an else clause / a non-name target")
+        self.pvar = self.loop.target.id
+        self.svars = loop_state_vars(self.pro, self.loop)
+        self.extra = [p for p in self.params if p not in self.svars and p != self.pvar]
+        self.prologue = _state_fn("prologue", self.params, self.pro, self.svars)
+        once = ast.For(target=ast.Name(id="_once", ctx=ast.Store()),
+                       iter=ast.List(elts=[ast.Constant(0)], ctx=ast.Load()), body=self.loop.body, orelse=[])
+        self.step_params = self.svars + [self.pvar] + self.extra
+        self.step_body = [once]
+        self.roles: dict[str, str] = {}
+        self.kinds: dict[str, str] = {}
+
+    # -- inputs
+    def receiver(self) -> Obj:
+        return self_obj(self.cls)
+
+    def mk_sys(self, it: OrderInterp, ctx: dict[str, Any], fork: bool = True, strict: bool = False) -> Obj:
+        zero = it.globals["__ZERO__"] = Atom("ZERO")
+        incl = None
+        if not fork or it.choose(2, "system inclusion bounds present") == 1:
+            sl, su = Atom("sysL"), Atom("sysU")
+            it.assume("<=", sl, zero)
+            it.assume("<=", zero, su)
+            incl = Obj("Bounds", lower=sl, upper=su)
+        excl = mk_excl(it, (not fork) or it.choose(2, "system exclusion bounds present") == 1, ("sel", "seu"))
+        if strict and excl is not None:
+            it.assume("<", excl.fields["lower"], zero)
+            it.assume("<", zero, excl.fields["upper"])
+        ctx.update(incl=incl, sexcl=excl)
+        return Obj("SystemBounds", inclusion_bounds=incl, exclusion_bounds=excl)
+
+    def prologue_args(self, it: OrderInterp, ctx: dict[str, Any], **kw: Any) -> dict[str, Any]:
+        dummy = Obj("Proposal", preferred_power=None, bounds=Obj("Bounds", lower=None, upper=None),
+                    priority=1, source_id="p")
+        return {self.params[0]: self.receiver(), self.params[1]: [dummy],
+                self.params[2]: self.mk_sys(it, ctx, **kw)}
+
+    # -- roles
+    def bind_roles(self) -> None:
+        """L / U / X: the loop-carried variables whose loop-head values reach clamp_to_bounds as
+        lower_bound / upper_bound / exclusion_bounds (fallback: the variables the prologue
+        initialises from the system inclusion bounds / exclusion zone); T: the variable whose value
+        the epilogue returns.  The binding only selects the inductive invariant that is then
+        *verified*; a wrong binding cannot make an unsafe sweep pass."""
+        prog, mod, n = self.prog, self.mod, len(self.svars)
+        it = RoleInterp(prog, mod)
+        ctx: dict[str, Any] = {}
+        outs = it.explore(self.prologue, lambda: self.prologue_args(it, ctx, fork=False, strict=True),
+                          lambda res: dict(ctx))
+        outs = [o for o in outs if o.kind == "return" and _is_state(o.value, n)]
+        if not outs:
+            raise AnalysisError(f"{self.fn.qual}: the prologue never reaches the proposal loop")
+        tmpl = dict(zip(self.svars, outs[0].value[1:]))
+        c = outs[0].post
+        for v, val in tmpl.items():
+            self.kinds[v] = ("atom" if isinstance(val, Atom) else
+                             "bounds" if val is None or (isinstance(val, Obj) and {"lower", "upper"} <= set(val.fields))
+                             else "other")
+        by_value = {
+            "L": [v for v in self.svars if tmpl[v] is c["incl"].fields["lower"]],
+            "U": [v for v in self.svars if tmpl[v] is c["incl"].fields["upper"]],
+            "X": [v for v in self.svars if tmpl[v] is c["sexcl"]],
+        }
+        clamp = prog.func(f"{BOUNDS}:clamp_to_bounds")
+        cur: dict[int, str] = {}
+        found: dict[str, str | None] = {}
+
+        class _Stop(Exception):
+            pass
+
+        def on_call(f: FuncInfo, a: dict[str, Any]) -> None:
+            if f is clamp or f.qual == clamp.qual:
+                for role, p in zip(("L", "U", "X"), clamp.params[1:4]):
+                    found[role] = cur.get(id(a.get(p)))
+                raise _Stop()
+
+        it2 = RoleInterp(prog, mod, on_call)
+
+        def standins() -> dict[str, Any]:
+            it2.globals["__ZERO__"] = Atom("ZERO")
+            cur.clear()
+            out: dict[str, Any] = {}
+            for v in self.svars:
+                k = self.kinds[v]
+                val: Any = (Atom(f"${v}") if k == "atom" else
+                            mk_excl(it2, True, (f"${v}.lower", f"${v}.upper")) if k == "bounds"
+                            else Poison(f"loop-carried variable {v}"))
+                out[v] = val
+                cur[id(val)] = v
+            self._keep = out  # keep the stand-ins alive while their ids are in use
+            return out
+
+        def step_args() -> dict[str, Any]:
+            a = standins()
+            a[self.pvar] = mk_proposal(it2, shapes=[(1, 1, 1)])
+            a.update(self.extra_args())
+            return a
+
+        try:
+            it2.explore(synth("step", self.step_params, self.step_body, []), step_args)
+        except _Stop:
+            pass
+        # the variable the epilogue returns
+        names: set[str | None] = set()
+        it3 = RoleInterp(prog, mod)
+        it2 = it3  # stand-ins are created in the interpreter that runs the epilogue
+
+        def epi_args() -> dict[str, Any]:
+            a = standins()
+            a.update(self.extra_args())
+            a[self.pvar] = Poison("the loop variable after the loop")
+            return a
+
+        for o in it3.explore(synth("epilogue", self.step_params, self.epi, []), epi_args,
+                             lambda res: ("name", cur.get(id(res)))):
+            names.add(o.post[1] if o.kind == "return" else None)
+        roles: dict[str, str | None] = {"T": next(iter(names)) if len(names) == 1 else None}
+        for r in ("L", "U", "X"):
+            roles[r] = found.get(r) or (by_value[r][0] if len(by_value[r]) == 1 else None)
+        self.roles = {k: v for k, v in roles.items() if v is not None}
+
+    def extra_args(self) -> dict[str, Any]:
+        out: dict[str, Any] = {}
+        for p in self.extra:
+            out[p] = self.receiver() if p == self.params[0] else Poison(f"parameter {p} inside the proposal loop")
+        return out
+
+    def roles_ok(self) -> bool:
+        r = self.roles
+        return (set(r) == {"L", "U", "T", "X"} and len(set(r.values())) == 4
+                and all(self.kinds[r[k]] == "atom" for k in ("L", "U", "T")) and self.kinds[r["X"]] == "bounds")
+
+    # -- the optimisation of the quick tier
+    def parts_independent(self) -> bool:
+        """One iteration = a target part (reads the preferred power, may assign the target) and a
+        bounds part (reads the proposal's bounds, narrows the running bounds) that do not influence
+        each other: the target part reads the running bounds before the bounds part changes them,
+        writes nothing the bounds part uses and never leaves the iteration; the bounds part neither
+        uses the target nor anything derived from the preferred power."""
+        r, pvar = self.roles, self.pvar
+        guard = {r["L"], r["U"], r["X"]}
+        attr_bases = {id(n.value) for s in self.loop.body for n in ast.walk(s) if isinstance(n, ast.Attribute)}
+        t_part: list[tuple[int, ast.stmt]] = []
+        b_part: list[tuple[int, ast.stmt]] = []
+        from_pref: set[str] = set()
+        from_bnd: set[str] = set()
+        for i, s in enumerate(self.loop.body):
+            uses = [n for n in ast.walk(s) if isinstance(n, ast.Name) and n.id == pvar]
+            if any(id(n) not in attr_bases or not isinstance(n.ctx, ast.Load) for n in uses):
+                return False  # the proposal is passed on as a whole / rebound
+            attrs = {n.attr for n in ast.walk(s) if isinstance(n, ast.Attribute)
+                     and isinstance(n.value, ast.Name) and n.value.id == pvar}
+            if attrs - {"preferred_power", "bounds"}:
+                return False
+            R, W = _loaded(s), _stored(s)
+            is_t = "preferred_power" in attrs or bool(R & from_pref) or r["T"] in (R | W)
+            is_b = "bounds" in attrs or bool(R & from_bnd)
+            if is_t and is_b:
+                return False
+            if is_t:
+                t_part.append((i, s))
+                from_pref |= W - {r["T"]}
+            else:
+                b_part.append((i, s))
+                if is_b:
+                    from_bnd |= W
+        if not t_part:
             return False
-    return True
+        t_w = set().union(*(_stored(s) for _i, s in t_part))
+        b_names = set().union(*((_loaded(s) | _stored(s)) for _i, s in b_part)) if b_part else set()
+        if t_w & (guard | b_names) or (from_pref | {r["T"]}) & b_names:
+            return False
+        if any(isinstance(n, (ast.Break, ast.Continue, ast.Return)) for _i, s in t_part for n in ast.walk(s)):
+            return False
+        first_write = min([i for i, s in b_part if _stored(s) & guard], default=len(self.loop.body))
+        if any(i > first_write and _loaded(s) & guard for i, s in t_part):
+            return False
+        return True
 
 
 def check_sweep(run: Run, prog: Program, tier: str = "quick") -> None:
     fn = prog.func(f"{MAT}:Matryoshka._calc_target_power")
     run.analysed(fn.qual)
-    pro, loop, epi = split_sweep(fn)
-    svars = loop_state_vars(pro, loop)
-    need = {"lower_bound", "upper_bound", "target_power", "exclusion_bounds"}
-    if not need <= set(svars):
-        raise AnalysisError(f"{fn.qual}: loop state variables {svars} do not include {sorted(need)}")
-    mod = prog.module(MAT)
+    sw = Sweep(prog, fn)
+    svars, n = sw.svars, len(sw.svars)
+    sw.bind_roles()
+    # ---- the sweep returns the running target
+    if not run.check("T" in sw.roles, "C03.ENV", fn.qual, "return <running target>",
+                     "the sweep does not return the running target (the value returned after the loop "
+                     "is not one loop-carried variable)", node=fn.node, file=fn.file):
+        return
+    if not sw.roles_ok():
+        raise AnalysisError(f"{fn.qual}: cannot bind the running bounds / zone / target among the "
+                            f"loop-carried variables {svars}: {sw.roles}")
+    rl, ru, rt, rx = (sw.roles[k] for k in ("L", "U", "T", "X"))
+    run.note(f"sweep state bound by dataflow: lower={rl}, upper={ru}, zone={rx}, target={rt}")
+    mod = sw.mod
     # ---- prologue establishes the invariant
-    it = OrderInterp(prog, mod)
+    it = RoleInterp(prog, mod)
     ctx: dict[str, Any] = {}
-    pfn = synth("prologue", ["system_bounds"], pro, ["lower_bound", "upper_bound", "target_power",
-                                                     "exclusion_bounds"])
-
-    def mk_sys(it: OrderInterp) -> Obj:
-        it.globals["__ZERO__"] = Atom("ZERO")
-        zero = it.globals["__ZERO__"]
-        incl = None
-        if it.choose(2, "system inclusion bounds present") == 1:
-            sl, su = Atom("sysL"), Atom("sysU")
-            it.assume("<=", sl, zero)
-            it.assume("<=", zero, su)
-            incl = Obj("Bounds", lower=sl, upper=su)
-        excl = mk_excl(it, it.choose(2, "system exclusion bounds present") == 1, ("sel", "seu"))
-        ctx.update(incl=incl, sexcl=excl)
-        return Obj("SystemBounds", inclusion_bounds=incl, exclusion_bounds=excl)
-
-    def pre_args() -> dict[str, Any]:
-        return {"system_bounds": mk_sys(it)}
+    pro_vals: dict[str, list[Any]] = {v: [] for v in svars}
 
     def pre_post(res: Any) -> Any:
-        L, U, T, ex = res
+        if not _is_state(res, n):
+            raise AnalysisError(f"{fn.qual}: the prologue returns before the proposal loop (not modelled)")
+        vals = dict(zip(svars, res[1:]))
+        for v in svars:
+            pro_vals[v].append(vals[v])
+        L, U, T, ex = vals[rl], vals[ru], vals[rt], vals[rx]
         zero = it.globals["__ZERO__"]
         bad = []
         if not (isinstance(L, Atom) and isinstance(U, Atom) and isinstance(T, Atom)):
-            return ("shape", f"initial state {res!r} is not made of atoms")
+            return ("shape", f"initial state {vals!r} is not made of atoms")
         if T is not zero:
             bad.append("initial target is not zero")
         incl = ctx["incl"]
@@ -352,18 +557,32 @@ def check_sweep(run: Run, prog: Program, tier: str = "quick") -> None:
                 bad.append("a non-degenerate system exclusion zone is ignored")
         return ("bad", bad) if bad else None
 
-    outs = it.explore(pfn, pre_args, pre_post)
+    outs = it.explore(sw.prologue, lambda: sw.prologue_args(it, ctx), pre_post)
     _report_orderings(run, "C03.ENV", fn, outs, "sweep prologue (target starts at zero, bounds at the "
                       "system inclusion bounds or zero, exclusion zone = system exclusion zone)")
+    # ---- loop-carried variables without a role must be constants of the sweep
+    assigned_in_loop = set().union(*(_stored(s) for s in sw.loop.body))
+    consts: dict[str, Any] = {}
+    for v in svars:
+        if v in (rl, ru, rt, rx):
+            continue
+        if v in assigned_in_loop:
+            raise AnalysisError(f"{fn.qual}: loop-carried variable {v} has no role in the invariant")
+        vals = pro_vals[v]
+        if vals and all(isinstance(x, Atom) and x.name == "ZERO" for x in vals):
+            consts[v] = "ZERO"
+        elif vals and all(isinstance(x, (bool, int, float, str, type(None))) and x == vals[0]
+                          and type(x) is type(vals[0]) for x in vals):
+            consts[v] = ("const", vals[0])
+        else:
+            consts[v] = None
     # ---- inductive step
-    split = parts_independent(loop) and tier == "quick"
+    split = tier == "quick" and sw.parts_independent()
     shapes = SHAPES_SPLIT if split else SHAPES_ALL
     run.note("inductive step explores " + ("the 5 separated proposal shapes (target part and bounds "
              "part of an iteration are structurally independent)" if split else "all 8 proposal shapes"))
-    it2 = OrderInterp(prog, mod)
-    sfn = synth("step", svars + [u(loop.target)], [ast.For(
-        target=ast.Name(id="_once", ctx=ast.Store()), iter=ast.List(elts=[ast.Constant(0)], ctx=ast.Load()),
-        body=loop.body, orelse=[])], ["lower_bound", "upper_bound", "target_power"])
+    it2 = RoleInterp(prog, mod)
+    sfn = synth("step", sw.step_params, sw.step_body, [rl, ru, rt, rx])
     ctx2: dict[str, Any] = {}
 
     def step_args() -> dict[str, Any]:
@@ -390,16 +609,22 @@ def check_sweep(run: Run, prog: Program, tier: str = "quick") -> None:
                 it2.assume("<=", excl.fields["upper"], T)
         p = mk_proposal(it2, shapes=shapes)
         ctx2.update(sl=sl, su=su, excl=excl, T=T)
-        args = {v: None for v in svars}
-        args.update(lower_bound=L, upper_bound=U, target_power=T, exclusion_bounds=excl)
-        args[u(loop.target)] = p
+        args: dict[str, Any] = {}
+        for v, cst in consts.items():
+            args[v] = (zero if cst == "ZERO" else cst[1] if isinstance(cst, tuple)
+                       else Poison(f"loop-carried variable {v}"))
+        args.update({rl: L, ru: U, rt: T, rx: excl})
+        args[sw.pvar] = p
+        args.update(sw.extra_args())
         return args
 
     def step_post(res: Any) -> Any:
-        L2, U2, T2 = res
-        if not all(isinstance(x, Atom) for x in res):
+        L2, U2, T2, X2 = res
+        if not all(isinstance(x, Atom) for x in (L2, U2, T2)):
             return ("shape", f"state after one iteration {res!r} is not made of input atoms")
         bad = []
+        if X2 is not ctx2["excl"]:
+            bad.append("the exclusion zone changes during the sweep")
         if may_fail(it2, "<=", ctx2["sl"], L2):
             bad.append("running lower bound can fall below the system lower bound")
         if may_fail(it2, "<=", U2, ctx2["su"]):
@@ -419,23 +644,45 @@ def check_sweep(run: Run, prog: Program, tier: str = "quick") -> None:
     if len(outs) < 200:
         raise AnalysisError(f"{fn.qual}: only {len(outs)} abstract paths in the inductive step")
     run.extra_cov["proposal_shapes"] = len(shapes)
-    # ---- epilogue returns the state variable
-    ok = len(epi) == 1 and isinstance(epi[0], ast.Return) and u(epi[0].value) == "target_power"
-    run.check(ok, "C03.ENV", fn.qual, "return target_power",
-              "the sweep does not return the running target", node=fn.node, file=fn.file)
-    # ---- the loop iterates the proposals argument
-    run.check(u(loop.iter).replace(" ", "") == f"sorted({fn.params[1]},reverse=True)", "C03.ORD",
-              fn.qual, f"for ... in {u(loop.iter)}",
+    # ---- the loop iterates the proposals argument in the proposals' own total order
+    ok, shown = _sorted_sweep(prog, fn, want_arg=fn.params[1])
+    run.check(ok, "C03.ORD", fn.qual, f"for ... in {shown}",
               "the sweep does not iterate sorted(<bucket>, reverse=True) with the proposals' own "
               "total order: equal-priority proposals would be swept in set-iteration (arrival) order",
-              node=loop, file=fn.file)
+              node=sw.loop, file=fn.file)
+
+
+def _sorted_sweep(prog: Program, fn: FuncInfo, want_arg: str | None) -> tuple[bool, str]:
+    """The (single) proposal loop of `fn` iterates `sorted(X, reverse=True)` without a key; locals and
+    simple helpers between the loop header and the call are seen through."""
+    node = inline_helpers(prog, fn)
+    loops = [s for s in body_walk(node) if isinstance(s, (ast.For, ast.AsyncFor))]
+    if len(loops) != 1:
+        return False, f"{len(loops)} loops"
+    it = resolve_local(node, loops[0].iter, fn.params)
+    shown = u(it)
+    if not (isinstance(it, ast.Call) and isinstance(it.func, ast.Name) and it.func.id == "sorted"):
+        return False, shown
+    args = positional(it, ["iterable"])
+    kws = {k: v for k, v in args.items() if k != "iterable"}
+    if set(kws) != {"reverse"} or not (isinstance(kws["reverse"], ast.Constant) and kws["reverse"].value is True):
+        return False, shown
+    if len(it.args) > 1 or "iterable" not in args:
+        return False, shown
+    if want_arg is not None:
+        src = resolve_local(node, args["iterable"], fn.params)
+        if not (isinstance(src, ast.Name) and src.id == want_arg):
+            return False, shown
+    return True, shown
 
 
 def check_end_to_end(run: Run, prog: Program, n: int, shapes: list[tuple[int, int, int]]) -> None:
     """Thorough cross-check of the induction: the whole _calc_target_power with n symbolic proposals."""
     fn = prog.func(f"{MAT}:Matryoshka._calc_target_power")
-    it = OrderInterp(prog, prog.module(MAT))
+    it = RoleInterp(prog, prog.module(MAT))
     ctx: dict[str, Any] = {}
+    if fn.cls is None:
+        raise AnalysisError(f"{fn.qual} is not a method")
 
     def make_args() -> dict[str, Any]:
         it.globals["__ZERO__"] = Atom("ZERO")
@@ -453,7 +700,7 @@ def check_end_to_end(run: Run, prog: Program, n: int, shapes: list[tuple[int, in
             p.fields["priority"] = n - i
             props.append(p)
         ctx.update(incl=incl, excl=excl)
-        return {"self": Obj("self"), fn.params[1]: props,
+        return {fn.params[0]: self_obj(fn.cls), fn.params[1]: props,  # type: ignore[arg-type]
                 fn.params[2]: Obj("SystemBounds", inclusion_bounds=incl, exclusion_bounds=excl)}
 
     def post(T: Any) -> Any:
@@ -479,235 +726,418 @@ def check_end_to_end(run: Run, prog: Program, n: int, shapes: list[tuple[int, in
 
 
 # ---------------------------------------------------------------------------------------------
-def check_pure(run: Run, prog: Program) -> None:
-    fn = prog.func(f"{MAT}:Matryoshka._calc_target_power")
-    self_uses = [n for n in body_walk(fn.node) if isinstance(n, ast.Name) and n.id == "self"]
-    run.check(not self_uses, "C03.PURE", fn.qual, "no use of self",
-              "the target computation reads or writes instance state: the result would depend on "
-              "history, not only on the live proposals and the bounds", node=fn.node, file=fn.file)
-    glob = [n for n in body_walk(fn.node) if isinstance(n, (ast.Global, ast.Nonlocal))]
-    run.check(not glob, "C03.PURE", fn.qual, "no global state", "global state is used",
-              node=fn.node, file=fn.file)
+def reachable_code(prog: Program, fn: FuncInfo) -> list[FuncInfo]:
+    """`fn` and every method / same-module private function it can reach through calls on `self`,
+    `cls`, the class name or a bare private name."""
+    seen: dict[str, FuncInfo] = {fn.qual: fn}
+    work = [fn]
+    while work:
+        f = work.pop()
+        recv = {f.params[0]} if f.cls is not None and f.params and not is_static(f) else set()
+        for c in (n for n in body_walk(f.node) if isinstance(n, ast.Call)):
+            tgt: FuncInfo | None = None
+            if isinstance(c.func, ast.Attribute) and isinstance(c.func.value, ast.Name) and f.cls is not None \
+                    and (c.func.value.id in recv or c.func.value.id == f.cls.name):
+                tgt = prog.resolve_method(f.cls, c.func.attr)
+            elif isinstance(c.func, ast.Name) and c.func.id.startswith("_"):
+                t = prog.resolve_name(f.module, c.func.id)
+                tgt = t if isinstance(t, FuncInfo) and t.module is f.module else None
+            if tgt is not None and tgt.qual not in seen:
+                seen[tgt.qual] = tgt
+                work.append(tgt)
+    return list(seen.values())
+
+
+def _ctp_paths(prog: Program) -> tuple[FuncInfo, FuncInfo, list[SymPath]]:
+    calc = prog.func(f"{MAT}:Matryoshka._calc_target_power")
     ct = prog.func(f"{MAT}:Matryoshka.calculate_target_power")
+    if len(ct.params) < 4:
+        raise AnalysisError(f"{ct.qual}: expected (self, component_ids, proposal, system_bounds, ...)")
+    return calc, ct, sym_paths(inline_helpers(prog, ct), opaque=None)
+
+
+def _is_calc_call(c: ast.AST) -> bool:
+    return isinstance(c, ast.Call) and isinstance(c.func, ast.Attribute) and c.func.attr == "_calc_target_power" \
+        and u(c.func.value) in ("self", "cls")
+
+
+def check_pure(run: Run, prog: Program) -> None:
+    calc, ct, paths = _ctp_paths(prog)
+    # ---- the computation (and everything it reaches) uses `self` only to call further methods
+    for f in reachable_code(prog, calc):
+        bad: list[ast.AST] = []
+        if f.cls is not None and f.params and not is_static(f):
+            parents = parent_map(f.node)
+            for n in body_walk(f.node):
+                if isinstance(n, ast.Name) and n.id == f.params[0]:
+                    par = parents.get(n)
+                    gp = parents.get(par) if par is not None else None
+                    m = prog.resolve_method(f.cls, par.attr) if isinstance(par, ast.Attribute) else None
+                    if not (isinstance(par, ast.Attribute) and isinstance(par.ctx, ast.Load)
+                            and isinstance(gp, ast.Call) and gp.func is par and m is not None and not is_property(m)):
+                        bad.append(par if par is not None else n)
+        run.check(not bad, "C03.PURE", f.qual, u(bad[0]) if bad else "no use of instance state",
+                  "the target computation reads or writes instance state: the result would depend on "
+                  "history, not only on the live proposals and the bounds",
+                  node=bad[0] if bad else f.node, file=f.file)
+        glob = [n for n in body_walk(f.node) if isinstance(n, (ast.Global, ast.Nonlocal))]
+        run.check(not glob, "C03.PURE", f.qual, "no global state", "global state is used",
+                  node=glob[0] if glob else f.node, file=f.file)
+    # ---- calculate_target_power, per symbolic path
     run.analysed(ct.qual)
-    cfg = CFG(ct.node, ct.file)
-    calls = nodes_with_call(cfg, lambda c: method_call(c, "self", "_calc_target_power"))
-    if len(calls) != 1:
-        raise AnalysisError(f"{ct.qual}: expected one call of _calc_target_power")
-    call = find_calls(cfg.nodes[calls[0]].ast, lambda c: method_call(c, "self", "_calc_target_power"))[0]  # type: ignore[arg-type]
-    bucket_var = u(call.args[0])
-    ok = len(call.args) == 2 and u(call.args[1]) == ct.params[3]
-    defs = [n.ast for n in cfg.nodes if isinstance(n.ast, ast.Assign) and u(n.ast.targets[0]) == bucket_var]
-    ok = ok and len(defs) == 1 and u(defs[0].value) == f"self._component_buckets.get({ct.params[1]})"
-    run.check(ok, "C03.PURE", ct.qual, call,
-              "the target is not computed from exactly (this group's bucket, the bounds argument)",
-              node=call, file=ct.file)
+    gid, bounds_param = ct.params[1], ct.params[3]
+    bucket_forms = {f"self._component_buckets.get({gid})": ("is", frozenset({f"self._component_buckets.get({gid})", "None"})),
+                    f"self._component_buckets[{gid}]": ("in", gid, "self._component_buckets")}
+    n_calls = 0
+    fresh_texts: set[str] = set()
+    for p in paths:
+        calls = p.calls(_is_calc_call)
+        if len(calls) > 1:
+            raise AnalysisError(f"{ct.qual}: the target is computed more than once on a path")
+        if not calls:
+            continue
+        n_calls += 1
+        call = calls[0].node
+        fresh_texts.add(u(call))
+        args = positional(call, calc.params[1:])  # type: ignore[arg-type]
+        a_bucket = u(args.get(calc.params[1])).replace(" ", "")
+        a_bounds = u(args.get(calc.params[2]))
+        ok = len(args) == 2 and a_bounds == bounds_param and a_bucket in {k.replace(" ", "") for k in bucket_forms}
+        run.check(ok, "C03.PURE", ct.qual, call,
+                  "the target is not computed from exactly (this group's bucket, the bounds argument)",
+                  node=call, file=ct.file, path=p.describe(), instance=f"{ct.qual} :: arguments on path {_pid(p)}")
+        if not ok:
+            continue
+        # the bucket test dominates the computation
+        form = next(k for k in bucket_forms if k.replace(" ", "") == a_bucket)
+        key = bucket_forms[form]
+        want = key[0] == "in"
+        run.check(p.outcome(key) is want, "C03.PURE", ct.qual, "bucket test dominates the computation",
+                  "the computation is reachable without the bucket test", node=ct.node, file=ct.file,
+                  path=p.describe(), instance=f"{ct.qual} :: bucket test on path {_pid(p)}")
+    if not n_calls:
+        raise AnalysisError(f"{ct.qual}: no path calls _calc_target_power")
     # the only way to skip the recomputation once a bucket exists is `bucket is None`
-    skip = [t for t in cfg.nodes if t.kind == "test" and t.ast is not None and bucket_var in t.label]
-    ok = len(skip) == 1 and canon(skip[0].ast) == ("is", frozenset({bucket_var, "None"}))  # type: ignore[arg-type]
-    run.check(ok, "C03.PURE", ct.qual, skip[0].ast if skip else "bucket test",
-              "the recomputation is skipped for an existing (possibly emptied) bucket: after all "
-              "proposals expired the stale target would keep counting", node=ct.node, file=ct.file)
-    wit = cfg.path(cfg.entry, calls, avoid=[t.id for t in skip])
-    run.check(wit is None or not skip, "C03.PURE", ct.qual, "bucket test dominates the computation",
-              "the computation is reachable without the bucket test", node=ct.node, file=ct.file,
-              path=cfg.describe_path(wit))
+    seen_tests: set[tuple[str, int]] = set()
+    for p in paths:
+        for key, _o, test, ln, _w in p.conds:
+            txt = u(test)
+            for ft in fresh_texts:
+                txt = txt.replace(ft, "<fresh>")
+            hit = [k for k in bucket_forms if k in txt]
+            if not hit or (txt, ln) in seen_tests:
+                continue
+            seen_tests.add((txt, ln))
+            ok = key == bucket_forms[hit[0]] if hit[0].endswith(")") else False
+            run.check(ok, "C03.PURE", ct.qual, test,
+                      "the recomputation is skipped for an existing (possibly emptied) bucket: after all "
+                      "proposals expired the stale target would keep counting", node=test, file=ct.file,
+                      path=p.describe())
     # _target_power is only compared and overwritten with the fresh value
-    fresh = None
-    s = cfg.nodes[calls[0]].ast
-    if isinstance(s, ast.Assign):
-        fresh = u(s.targets[0])
+    n_writes = 0
+    for p in paths:
+        for e in p.effects:
+            if e.kind not in ("write", "del"):
+                continue
+            tgt, val = (e.node.elts if e.kind == "write" else (e.node, None))  # type: ignore[attr-defined]
+            if "self._target_power" in u(tgt):
+                n_writes += 1
+                ok = e.kind == "write" and u(tgt) == f"self._target_power[{gid}]" and u(val) in fresh_texts \
+                    and any(c.node is not None and u(c.node) == u(val) for c in p.calls(_is_calc_call))
+                run.check(ok, "C03.PURE", ct.qual, f"{u(tgt)} = {u(val)}",
+                          "the stored target is written with something other than the freshly "
+                          "computed value", node=e.orig or ct.node, file=ct.file, path=p.describe(),
+                          instance=f"{ct.qual} :: store on path {_pid(p)}")
+    spliced = _spliced_into(prog, ct)
     for m in prog.cls(f"{MAT}:Matryoshka").methods.values():
+        if m.name == ct.name or m.name in spliced:
+            continue
         for n in body_walk(m.node):
-            if isinstance(n, (ast.Assign, ast.AugAssign)):
-                tg = n.targets[0] if isinstance(n, ast.Assign) else n.target
-                if isinstance(tg, ast.Subscript) and u(tg.value) == "self._target_power":
-                    run.check(m.name == "calculate_target_power" and isinstance(n, ast.Assign)
-                              and u(n.value) == fresh, "C03.PURE", m.qual, n,
-                              "the stored target is written with something other than the freshly "
-                              "computed value", node=n, file=m.file)
+            tg = None
+            if isinstance(n, (ast.Assign, ast.AugAssign, ast.AnnAssign, ast.Delete)):
+                tgs = n.targets if isinstance(n, (ast.Assign, ast.Delete)) else [n.target]
+                tg = next((t for t in tgs if "self._target_power" in u(t)
+                           and not (m.name == "__init__" and u(t) == "self._target_power")), None)
+            elif isinstance(n, ast.Call) and isinstance(n.func, ast.Attribute) and u(n.func.value) == "self._target_power" \
+                    and n.func.attr in ("pop", "clear", "update", "setdefault", "popitem", "__setitem__", "__delitem__"):
+                tg = n
+            if tg is not None:
+                run.check(False, "C03.PURE", m.qual, n,
+                          "the stored target is written with something other than the freshly "
+                          "computed value", node=n, file=m.file)
     # the returned value is the fresh one (or None when unchanged)
-    rets = [n.ast for n in cfg.nodes if isinstance(n.ast, ast.Return) and n.ast.value is not None
-            and not (isinstance(n.ast.value, ast.Constant) and n.ast.value.value is None)]
-    run.check(all(u(r.value) == fresh for r in rets) and bool(rets), "C03.PURE", ct.qual,
-              f"return {fresh}", "a value other than the freshly computed target is returned",
-              node=ct.node, file=ct.file)
+    rets = [p for p in paths if p.exit == "return" and p.ret is not None
+            and not (isinstance(p.ret, ast.Constant) and p.ret.value is None)]
+    good = bool(rets) and all(u(p.ret) in fresh_texts and p.calls(_is_calc_call) for p in rets)
+    worst = next((p for p in rets if not (u(p.ret) in fresh_texts and p.calls(_is_calc_call))), None)
+    run.check(good, "C03.PURE", ct.qual, "return <fresh target>",
+              "a value other than the freshly computed target is returned",
+              node=ct.node, file=ct.file, path=worst.describe() if worst else None)
+
+
+def _pid(p: SymPath) -> str:
+    return ",".join(("T" if o else "F") for _k, _ko, _t, _ln, o in p.conds)
+
+
+def _spliced_into(prog: Program, fn: FuncInfo) -> set[str]:
+    """Private helpers whose bodies the path walker saw as part of `fn` (no call of them is left)."""
+    before = {c.func.attr for c in ast.walk(fn.node) if isinstance(c, ast.Call) and isinstance(c.func, ast.Attribute)
+              and u(c.func.value) == "self"}
+    node = inline_helpers(prog, fn)
+    after = {c.func.attr for c in ast.walk(node) if isinstance(c, ast.Call) and isinstance(c.func, ast.Attribute)
+             and u(c.func.value) == "self"}
+    out = set()
+    for name in before - after:
+        sites = [f for f, _c in prog.attr_call_sites(name)] if hasattr(prog, "attr_call_sites") else []
+        if all(f.qual == fn.qual or f.name in (before - after) for f in sites):
+            out.add(name)
+    return out
+
+
+# ---------------------------------------------------------------------------------------------
+def _key_fields(prog: Program, cls: ClassInfo, m: FuncInfo, depth: int = 3) -> set[str]:
+    """Data attributes of the compared objects that `m` reads (through helper methods)."""
+    recv = set(m.params[:2]) if not is_static(m) else set()
+    out: set[str] = set()
+    for n in body_walk(m.node):
+        if isinstance(n, ast.Attribute) and isinstance(n.value, ast.Name) and n.value.id in recv:
+            h = prog.resolve_method(cls, n.attr)
+            if h is not None and depth > 0:
+                out |= _key_fields_self(prog, cls, h, depth - 1)
+            else:
+                out.add(n.attr)
+    return out
+
+
+def _key_fields_self(prog: Program, cls: ClassInfo, m: FuncInfo, depth: int) -> set[str]:
+    recv = set(m.params[:1]) if not is_static(m) else set()
+    out: set[str] = set()
+    for n in body_walk(m.node):
+        if isinstance(n, ast.Attribute) and isinstance(n.value, ast.Name) and n.value.id in recv:
+            h = prog.resolve_method(cls, n.attr)
+            if h is not None and depth > 0:
+                out |= _key_fields_self(prog, cls, h, depth - 1)
+            else:
+                out.add(n.attr)
+    return out
 
 
 def check_ord(run: Run, prog: Program) -> None:
     cls = prog.cls(f"{BASE}:Proposal")
-    keys = {}
+    want = {"priority", "source_id"}
     for name in ("__lt__", "__eq__", "__hash__"):
         if name not in cls.methods:
             raise AnalysisError(f"Proposal.{name} not found")
         m = cls.methods[name]
         run.analysed(m.qual)
-        keys[name] = {n.attr for n in body_walk(m.node) if isinstance(n, ast.Attribute)
-                      and isinstance(n.value, ast.Name) and n.value.id in ("self", "other")}
-    want = {"priority", "source_id"}
-    for name, ks in keys.items():
-        run.check(ks == want, "C03.ORD", cls.methods[name].qual, f"{name} key fields {sorted(ks)}",
+        ks = _key_fields(prog, cls, m)
+        run.check(ks == want, "C03.ORD", m.qual, f"{name} key fields {sorted(ks)}",
                   f"Proposal.{name} uses {sorted(ks)} instead of (priority, source_id): replacement "
-                  "of an actor's proposal and the sweep order would disagree", node=cls.methods[name].node,
-                  file=cls.methods[name].file)
-    lt = cls.methods["__lt__"]
-    rets = [n for n in body_walk(lt.node) if isinstance(n, ast.Return)]
-    want_lt = ("or", frozenset({("<", "self.priority", "other.priority"),
-                                ("and", frozenset({("==", frozenset({"self.priority", "other.priority"})),
-                                                   ("<", "self.source_id", "other.source_id")}))}))
-    run.check(len(rets) == 1 and canon(rets[0].value) == want_lt, "C03.ORD", lt.qual,  # type: ignore[arg-type]
-              "lexicographic (priority, source_id)", "Proposal.__lt__ is not the lexicographic order "
-              "on (priority, source_id): distinct bucket members would not be totally ordered",
-              node=lt.node, file=lt.file)
-    eq = cls.methods["__eq__"]
-    rets = [n for n in body_walk(eq.node) if isinstance(n, ast.Return) and not (
-        isinstance(n.value, ast.Name) and n.value.id == "NotImplemented")]
-    want_eq = ("and", frozenset({("==", frozenset({"self.priority", "other.priority"})),
-                                 ("==", frozenset({"self.source_id", "other.source_id"}))}))
-    run.check(len(rets) == 1 and canon(rets[0].value) == want_eq, "C03.ORD", eq.qual,  # type: ignore[arg-type]
-              "equality on (priority, source_id)", "Proposal.__eq__ is not equality of (priority, "
-              "source_id)", node=eq.node, file=eq.file)
+                  "of an actor's proposal and the sweep order would disagree", node=m.node, file=m.file)
+    fields = [s.target.id for s in cls.node.body if isinstance(s, ast.AnnAssign) and isinstance(s.target, ast.Name)]
+    if not want <= set(fields):
+        raise AnalysisError(f"Proposal fields {fields} do not include priority / source_id")
+    for name, what, msg in (
+            ("__lt__", "lexicographic (priority, source_id)",
+             "Proposal.__lt__ is not the lexicographic order on (priority, source_id): distinct bucket "
+             "members would not be totally ordered"),
+            ("__eq__", "equality on (priority, source_id)",
+             "Proposal.__eq__ is not equality of (priority, source_id)")):
+        m = cls.methods[name]
+        if len(m.params) != 2:
+            raise AnalysisError(f"{m.qual}: expected (self, other)")
+        it = RoleInterp(prog, cls.module)
+        ctx: dict[str, Any] = {}
+
+        def make_args(it: RoleInterp = it, m: FuncInfo = m, ctx: dict[str, Any] = ctx) -> dict[str, Any]:
+            a = self_obj(cls, **{f: Atom(f"a.{f}") for f in fields})
+            b = self_obj(cls, **{f: Atom(f"b.{f}") for f in fields})
+            ctx.update(a=a, b=b)
+            return {m.params[0]: a, m.params[1]: b}
+
+        def post(res: Any, it: RoleInterp = it, name: str = name, ctx: dict[str, Any] = ctx) -> Any:
+            a, b = ctx["a"].fields, ctx["b"].fields
+            rp = it.cmp3(a["priority"], b["priority"], "post priority")
+            if name == "__lt__":
+                expect = rp == "<" or (rp == "=" and it.cmp3(a["source_id"], b["source_id"], "post source") == "<")
+            else:
+                expect = rp == "=" and it.cmp3(a["source_id"], b["source_id"], "post source") == "="
+            if not isinstance(res, bool):
+                return ("shape", f"result {res!r} is not a boolean")
+            return None if res is expect else ("bad", [f"returns {res} where {expect} is required"])
+
+        outs = it.explore(m.node, make_args, post)
+        n_bad = sum(1 for o in outs if o.kind == "raise" or o.post is not None)
+        if n_bad:
+            run.check(False, "C03.ORD", m.qual, what, msg + f" ({n_bad} of {len(outs)} weak orderings of the "
+                      "two keys give the wrong answer)", node=m.node, file=m.file)
+        _report_orderings(run, "C03.ORD", m, [o for o in outs if not (o.kind == "raise" or o.post is not None)] if n_bad else outs, what)
+        if len(outs) < 3:
+            raise AnalysisError(f"{m.qual}: only {len(outs)} abstract paths")
     # get_status sweeps in the same order
     gs = prog.func(f"{MAT}:Matryoshka.get_status")
     run.analysed(gs.qual)
-    loops = [s for s in body_walk(gs.node) if isinstance(s, ast.For)]
-    ok = len(loops) == 1 and isinstance(loops[0].iter, ast.Call) and u(loops[0].iter.func) == "sorted" \
-        and {k.arg: u(k.value) for k in loops[0].iter.keywords} == {"reverse": "True"}
-    run.check(ok, "C03.ORD", gs.qual, u(loops[0].iter) if loops else "loop",
+    ok, shown = _sorted_sweep(prog, gs, want_arg=None)
+    run.check(ok, "C03.ORD", gs.qual, shown,
               "get_status does not sweep sorted(<bucket>, reverse=True) with the proposals' own order",
               node=gs.node, file=gs.file)
 
 
 def check_repl(run: Run, prog: Program) -> None:
-    ct = prog.func(f"{MAT}:Matryoshka.calculate_target_power")
-    cfg = CFG(ct.node, ct.file)
-    adds = nodes_with_call(cfg, lambda c: isinstance(c.func, ast.Attribute) and c.func.attr == "add")
-    if len(adds) != 1:
-        raise AnalysisError(f"{ct.qual}: expected one bucket.add(...)")
-    add = find_calls(cfg.nodes[adds[0]].ast, lambda c: isinstance(c.func, ast.Attribute) and c.func.attr == "add")[0]  # type: ignore[arg-type]
-    bucket, item = u(add.func.value), u(add.args[0])  # type: ignore[union-attr]
-    removes = nodes_with_call(cfg, lambda c: method_call(c, bucket, "remove") or method_call(c, bucket, "discard"))
-    tests = [t for t in cfg.nodes if t.kind == "test" and t.ast is not None
-             and canon(t.ast) == ("in", item, bucket)]
-    ok = False
-    wit = None
-    discard = [r for r in removes if "discard" in u(cfg.nodes[r].ast)]
-    if discard:
-        wit = cfg.path(cfg.entry, adds, avoid=discard)
-        ok = wit is None
-    elif removes and len(tests) == 1:
-        t = tests[0]
-        t_true = [m for m, lab in cfg.succ[t.id] if lab == "true"]
-        ok = t_true == removes[:1]
-        if ok:
-            wit = cfg.path(cfg.entry, adds, avoid=[t.id])
-            ok = wit is None
-        if ok:
-            rm = find_calls(cfg.nodes[removes[0]].ast, lambda c: True)[0]  # type: ignore[arg-type]
-            ok = [u(a) for a in rm.args] == [item]
-    run.check(ok, "C03.REPL", ct.qual, f"if {item} in {bucket}: {bucket}.remove({item}); {bucket}.add({item})",
-              "a new proposal is add()-ed without first removing the equal (same actor) element: "
-              "set.add keeps the old object, so the actor's previous proposal stays in force",
-              node=ct.node, file=ct.file, path=cfg.describe_path(wit))
-    # the bucket is this group's bucket
-    defs = [n.ast for n in cfg.nodes if isinstance(n.ast, ast.Assign) and u(n.ast.targets[0]) == bucket]
-    ok = len(defs) == 1 and u(defs[0].value).replace(" ", "") == f"self._component_buckets.setdefault({ct.params[1]},set())"
-    run.check(ok, "C03.REPL", ct.qual, f"{bucket} = self._component_buckets.setdefault(component_ids, set())",
-              "the proposal is not stored in this component group's bucket", node=ct.node, file=ct.file)
+    _calc, ct, paths = _ctp_paths(prog)
+    gid = ct.params[1]
+    own_bucket = {f"self._component_buckets.setdefault({gid},set())", f"self._component_buckets[{gid}]",
+                  f"self._component_buckets.setdefault({gid},set[Proposal]())"}
+
+    def is_add(c: ast.AST) -> bool:
+        return isinstance(c, ast.Call) and isinstance(c.func, ast.Attribute) and c.func.attr == "add" \
+            and "self._component_buckets" in u(c.func.value) and len(c.args) == 1
+
+    n_add = 0
+    for p in paths:
+        adds = p.calls(is_add)
+        for a in adds:
+            n_add += 1
+            bucket, item = u(a.node.func.value), u(a.node.args[0])  # type: ignore[attr-defined]
+            pos = p.effects.index(a)
+            removed = [e for e in p.effects[:pos] if e.kind == "call" and isinstance(e.node, ast.Call)
+                       and isinstance(e.node.func, ast.Attribute) and e.node.func.attr in ("remove", "discard")
+                       and u(e.node.func.value) == bucket and [u(x) for x in e.node.args] == [item]]
+            absent = p.outcome(("in", item, bucket)) is False
+            run.check(bool(removed) or absent, "C03.REPL", ct.qual,
+                      f"if {item} in <bucket>: <bucket>.remove({item}); <bucket>.add({item})",
+                      "a new proposal is add()-ed without first removing the equal (same actor) element: "
+                      "set.add keeps the old object, so the actor's previous proposal stays in force",
+                      node=ct.node, file=ct.file, path=p.describe(),
+                      instance=f"{ct.qual} :: add on path {_pid(p)}")
+            # the bucket is this group's bucket
+            run.check(bucket.replace(" ", "") in own_bucket and item == ct.params[2], "C03.REPL", ct.qual,
+                      f"<bucket> = self._component_buckets.setdefault({gid}, set())",
+                      "the proposal is not stored in this component group's bucket", node=ct.node, file=ct.file,
+                      path=p.describe(), instance=f"{ct.qual} :: bucket on path {_pid(p)}")
+    if not n_add:
+        raise AnalysisError(f"{ct.qual}: expected a bucket.add(...) of the new proposal")
+
+
+# ---------------------------------------------------------------------------------------------
+# groups -> actors with a live proposal there; actor A has one in two groups (equal as set members:
+# Proposal equality is (priority, source_id)), with independent creation times
+AGE_MODEL = (("g1", ("A", "B", "C")), ("g2", ("A", "D")), ("g3", ()))
 
 
 def check_age(run: Run, prog: Program) -> None:
     fn = prog.func(f"{MAT}:Matryoshka.drop_old_proposals")
     run.analysed(fn.qual)
-    brk = [n for n in body_walk(fn.node) if isinstance(n, (ast.Break, ast.Return))]
-    run.check(not brk, "C03.AGE", fn.qual, "no early exit",
-              "the expiry sweep can stop early (break/return): some expired proposals keep counting",
-              node=brk[0] if brk else fn.node, file=fn.file)
-    outer = [s for s in fn.node.body if isinstance(s, ast.For)]
-    ok = len(outer) == 1 and u(outer[0].iter) == "self._component_buckets.values()"
-    run.check(ok, "C03.AGE", fn.qual, "for bucket in self._component_buckets.values()",
-              "not every bucket is swept for expired proposals", node=fn.node, file=fn.file)
-    if not ok:
-        return
-    bucket = u(outer[0].target)
-    lt = fn.params[1]
+    if fn.cls is None or len(fn.params) != 2:
+        raise AnalysisError(f"{fn.qual}: expected (self, loop_time)")
+    cls = fn.cls
+    it = AgeInterp(prog, fn.module)
+    ctx: dict[str, Any] = {}
 
-    def is_old(test: ast.AST, pv: str) -> bool:
-        return canon(test) == ("<", "self._max_proposal_age_sec", f"{lt} - {pv}.creation_time")
+    def make_args() -> dict[str, Any]:
+        it.globals["__ZERO__"] = Atom("ZERO")
+        buckets: dict[str, Any] = {}
+        members: list[tuple[str, str, Obj]] = []
+        for g, actors in AGE_MODEL:
+            ps = []
+            for actor in actors:
+                cname = f"created({g}.{actor})"
+                p = Obj("Proposal", creation_time=Lin({cname: 1}), priority=ord(actor) - 64, source_id=actor,
+                        preferred_power=None, bounds=Obj("Bounds", lower=None, upper=None), component_ids=g)
+                ps.append(p)
+                members.append((g, cname, p))
+            buckets[g] = SetV(ps)
+        stored = {"g1": Atom("stored_target")}
+        me = self_obj(cls, _component_buckets=buckets, _max_proposal_age_sec=Lin({AgeInterp.MAXAGE: 1}),
+                      _target_power=stored)
+        ctx.update(me=me, members=members, stored=stored, stored0=dict(stored))
+        return {fn.params[0]: me, fn.params[1]: Lin({AgeInterp.NOW: 1})}
 
-    verdict: bool | None = None
-    # idiom (a): collect into a list, then remove each collected element
-    for t in (n for n in ast.walk(outer[0]) if isinstance(n, ast.If)):
-        loop = next((n for n in ast.walk(outer[0]) if isinstance(n, ast.For)
-                     and any(x is t for x in n.body)), None)
-        if loop is None:
-            continue
-        pv = u(loop.target)
-        src = u(loop.iter).replace(" ", "")
-        if src == bucket and is_old(t.test, pv) and not t.orelse and len(t.body) == 1 \
-                and isinstance(t.body[0], ast.Expr) and isinstance(t.body[0].value, ast.Call) \
-                and isinstance(t.body[0].value.func, ast.Attribute) \
-                and t.body[0].value.func.attr == "append" \
-                and [u(a) for a in t.body[0].value.args] == [pv]:
-            coll = u(t.body[0].value.func.value)
-            rm = [n for n in ast.walk(outer[0]) if isinstance(n, ast.For) and u(n.iter) == coll]
-            verdict = len(rm) == 1 and len(rm[0].body) == 1 and u(rm[0].body[0]) in (
-                f"{bucket}.remove({u(rm[0].target)})", f"{bucket}.discard({u(rm[0].target)})")
-        # idiom (b): iterate over a copy and remove in place
-        elif src in (f"list({bucket})", f"tuple({bucket})", f"{bucket}.copy()", f"set({bucket})") \
-                and is_old(t.test, pv) and not t.orelse and len(t.body) == 1 \
-                and u(t.body[0]) in (f"{bucket}.remove({pv})", f"{bucket}.discard({pv})"):
-            verdict = True
-        elif src == bucket and is_old(t.test, pv):
-            verdict = False  # mutating the set while iterating it / not removing
-    # idiom (c): bucket -= {p for p in bucket if old}
-    for n in ast.walk(outer[0]):
-        if isinstance(n, ast.AugAssign) and isinstance(n.op, ast.Sub) and u(n.target) == bucket \
-                and isinstance(n.value, ast.SetComp) and len(n.value.generators) == 1:
-            g = n.value.generators[0]
-            if u(g.iter) == bucket and len(g.ifs) == 1 and u(n.value.elt) == u(g.target):
-                verdict = is_old(g.ifs[0], u(g.target))
-    if verdict is None:
-        tests = [n for n in ast.walk(outer[0]) if isinstance(n, (ast.If, ast.comprehension))]
-        if not any("creation_time" in u(t) for t in tests):
-            verdict = False
-        else:
-            # an age test exists but in a shape we do not know: is it the right comparison at least?
-            ages = [t.test for t in tests if isinstance(t, ast.If) and "creation_time" in u(t.test)]
-            pvs = [u(n.target) for n in ast.walk(outer[0]) if isinstance(n, ast.For)]
-            if ages and not any(is_old(a, pv) for a in ages for pv in pvs):
-                verdict = False
-            else:
-                raise AnalysisError(f"{fn.qual}: expiry idiom not recognised (known: collect+remove, "
-                                    "iterate-over-copy+remove, set-comprehension difference)")
-    run.check(bool(verdict), "C03.AGE", fn.qual, "every proposal with loop_time - creation_time > max_age is removed",
-              "the expiry sweep does not remove exactly the proposals with `loop_time - creation_time "
-              "> max_proposal_age` from the bucket", node=fn.node, file=fn.file)
+    def post(_res: Any) -> Any:
+        me = ctx["me"]
+        b = me.fields.get("_component_buckets")
+        if not isinstance(b, dict) or set(b) != {g for g, _n in AGE_MODEL}:
+            return ("bad", ["the set of buckets changes (an emptied bucket must stay, so that the "
+                            "target is recomputed to zero)"])
+        bad = []
+        for g, cname, p in ctx["members"]:
+            cur = b[g]
+            items = cur.items if isinstance(cur, SetV) else list(cur) if isinstance(cur, (list, tuple)) else None
+            if items is None:
+                return ("shape", f"bucket {g} became {cur!r}")
+            present = any(p is x for x in items)
+            age = it.age(cname)
+            if present and it.possible([(">", age, it.max_atom)]):
+                bad.append(f"{g}.{p.fields['source_id']} stays although it can be older than the maximum age")
+            if not present and it.possible([("<=", age, it.max_atom)]):
+                bad.append(f"{g}.{p.fields['source_id']} is removed although it need not be older than the maximum age")
+        for g, _n in AGE_MODEL:
+            cur = b[g]
+            items = cur.items if isinstance(cur, SetV) else list(cur)
+            if any(not any(x is p for _g, _c, p in ctx["members"] if _g == g) for x in items):
+                bad.append(f"bucket {g} gained a member")
+        if me.fields.get("_target_power") is not ctx["stored"] or ctx["stored"] != ctx["stored0"]:
+            bad.append("the stored targets are touched by the expiry sweep")
+        return ("bad", bad) if bad else None
+
+    outs = it.explore(fn.node, make_args, post)
+    _report_orderings(run, "C03.AGE", fn, outs, "expiry sweep on the model buckets "
+                      f"{ {g: list(a) for g, a in AGE_MODEL} } (every proposal with loop_time - creation_time > max_age is removed "
+                      "from its bucket, nothing else changes)")
+    run.extra_cov.setdefault("abstract_paths", {})["drop_old_proposals"] = len(outs)
+    # the configured maximum age is what the expiry test compares against
     ag = prog.func(f"{MAT}:Matryoshka.__init__")
-    ok = any(isinstance(n, ast.Assign) and u(n.targets[0]) == "self._max_proposal_age_sec"
-             and u(n.value) == f"{ag.params[1]}.total_seconds()" for n in body_walk(ag.node))
-    run.check(ok, "C03.AGE", ag.qual, "self._max_proposal_age_sec = max_proposal_age.total_seconds()",
+    if len(ag.params) < 2:
+        raise AnalysisError(f"{ag.qual}: expected (self, max_proposal_age)")
+    want = f"{ag.params[1]}.total_seconds()"
+    ipaths = sym_paths(inline_helpers(prog, ag), opaque=None)
+    ok = bool(ipaths)
+    for p in ipaths:
+        ws = [e for e in p.effects if e.kind == "write" and u(e.node.elts[0]) == "self._max_proposal_age_sec"]  # type: ignore[attr-defined]
+        ok = ok and len(ws) == 1 and u(ws[0].node.elts[1]) == want  # type: ignore[attr-defined]
+    run.check(ok, "C03.AGE", ag.qual, f"self._max_proposal_age_sec = {want}",
               "the configured maximum age is not what the expiry test compares against",
               node=ag.node, file=ag.file)
-    # the actor expires both groups on the timer branch
+    check_age_actor(run, prog)
+
+
+def check_age_actor(run: Run, prog: Program) -> None:
+    """The actor expires both proposal groups, with the loop clock, on the timer branch."""
     rn = prog.func(f"{ACTOR}._run")
     run.analysed(rn.qual)
-    calls = find_calls(rn.node, lambda c: isinstance(c.func, ast.Attribute) and c.func.attr == "drop_old_proposals")
-    groups = sorted(u(c.func.value) for c in calls)  # type: ignore[union-attr]
-    ok = groups == ["self._set_op_power_group", "self._set_power_group"] and all(
-        u(c.args[0]) == "asyncio.get_event_loop().time()" for c in calls)
-    if ok:
-        branch = None
-        for n in ast.walk(rn.node):
-            if isinstance(n, ast.If) and "drop_old_proposals_timer" in u(n.test):
-                if all(any(x is c for x in ast.walk(ast.Module(body=n.body, type_ignores=[]))) for c in calls):
-                    branch = n
-        ok = branch is not None
+    node = inline_helpers(prog, rn)
+    loops = [n for n in body_walk(node) if isinstance(n, (ast.AsyncFor, ast.For))
+             and isinstance(n.iter, ast.Call) and u(n.iter.func).split(".")[-1] == "select"]
+    timers = {t.id for n in body_walk(node) if isinstance(n, (ast.Assign, ast.AnnAssign)) and n.value is not None
+              and isinstance(n.value, ast.Call) and "Timer" in u(n.value.func)
+              for t in (n.targets if isinstance(n, ast.Assign) else [n.target]) if isinstance(t, ast.Name)}
+    groups: list[str] = []
+    ok = False
+    if len(loops) == 1 and isinstance(loops[0].target, ast.Name) and timers:
+        sel = loops[0].target.id
+        select_args = {u(a) for a in loops[0].iter.args}  # type: ignore[attr-defined]
+        arms = [n for n in ast.walk(loops[0]) if isinstance(n, ast.If) and isinstance(n.test, ast.Call)
+                and u(n.test.func).split(".")[-1] == "selected_from" and len(n.test.args) == 2
+                and u(n.test.args[0]) == sel and u(n.test.args[1]) in timers & select_args]
+        for arm in arms:
+            res = SymExec(256, opaque=None).block(SymPath(), list(arm.body))
+            per_path = []
+            for p, st in res:
+                calls = p.calls(lambda c: isinstance(c.func, ast.Attribute) and c.func.attr == "drop_old_proposals")
+                per_path.append(st == "next" and sorted(u(c.node.func.value) for c in calls)  # type: ignore[attr-defined]
+                                == ["self._set_op_power_group", "self._set_power_group"]
+                                and all(len(c.node.args) + len(c.node.keywords) == 1  # type: ignore[attr-defined]
+                                        and u((c.node.args + [k.value for k in c.node.keywords])[0]).replace(  # type: ignore[attr-defined]
+                                            "get_running_loop", "get_event_loop") == "asyncio.get_event_loop().time()"
+                                        for c in calls))
+                groups = sorted(u(c.node.func.value) for c in calls)  # type: ignore[attr-defined]
+            ok = ok or (bool(per_path) and all(per_path))
     run.check(ok, "C03.AGE", rn.qual, "timer branch expires both groups with the loop time",
               f"expiry is not applied to both proposal groups on the timer branch (found {groups})",
               node=rn.node, file=rn.file)
 
 
+# ---------------------------------------------------------------------------------------------
 CONTROLS = [
     ("wrong bound in the (True, False) arm", BOUNDS,
      "                if value < exclusion_bounds.upper:\n                    return None, exclusion_bounds.upper",
@@ -730,6 +1160,102 @@ CONTROLS = [
      "            lower_bound = max(lower_bound, proposal_lower)\n",
      "            lower_bound = min(lower_bound, proposal_lower)\n", "C03.ENV"),
 ]
+
+
+def structural_controls(prog: Program) -> list[tuple[str, str, str, str, str]]:  # noqa: C901
+    """The seven controls located by structure in the tree under analysis (whole source -> patched
+    source), so that they apply to any surface form of the anchors; a site that cannot be located
+    falls back to the textual control."""
+    built: dict[str, tuple[str, str]] = {}
+
+    def add(name: str, module: str, edits: list[tuple[ast.AST, str]]) -> None:
+        src = prog.module(module).source
+        if edits:
+            try:
+                new = splice(src, edits)
+                ast.parse(new)
+            except (SyntaxError, AnalysisError):
+                return
+            if new != src:
+                built[name] = (src, new)
+
+    bsrc = prog.module(BOUNDS).source
+    clamp = prog.func(f"{BOUNDS}:clamp_to_bounds")
+    if len(clamp.params) == 4:
+        v, lo, hi, ex = clamp.params
+        rets = [n for n in body_walk(clamp.node) if isinstance(n, ast.Return) and isinstance(n.value, ast.Tuple)
+                and len(n.value.elts) == 2]
+
+        def is_none(e: ast.AST) -> bool:
+            return isinstance(e, ast.Constant) and e.value is None
+
+        r1 = [r for r in rets if is_none(r.value.elts[0]) and u(r.value.elts[1]) == f"{ex}.upper"]  # type: ignore[attr-defined]
+        add(CONTROLS[0][0], BOUNDS, [(r.value.elts[1], lo) for r in r1])  # type: ignore[attr-defined]
+        parents = parent_map(clamp.node)
+        r2 = [r for r in rets if is_none(r.value.elts[0]) and u(r.value.elts[1]) == hi]  # type: ignore[attr-defined]
+        ifs2 = [parents.get(r) for r in r2]
+        add(CONTROLS[1][0], BOUNDS, [(i.test, f"{v} >= {lo}") for i in ifs2 if isinstance(i, ast.If) and len(i.body) == 1])
+        r3 = [r for r in rets if u(r.value.elts[0]) == f"{ex}.lower" and u(r.value.elts[1]) == f"{ex}.upper"]  # type: ignore[attr-defined]
+        edits3: list[tuple[ast.AST, str]] = []
+        for r in r3:
+            i = parents.get(r)
+            if not isinstance(i, ast.If):
+                continue
+            for c in (n for n in ast.walk(i.test) if isinstance(n, ast.Compare)):
+                operands = [c.left] + list(c.comparators)
+                parts = [seg(bsrc, operands[0])]
+                changed = False
+                for k, op in enumerate(c.ops):
+                    a, b = u(operands[k]), u(operands[k + 1])
+                    sym = {ast.Lt: "<", ast.Gt: ">", ast.LtE: "<=", ast.GtE: ">=", ast.Eq: "==", ast.NotEq: "!=",
+                           ast.Is: "is", ast.IsNot: "is not", ast.In: "in", ast.NotIn: "not in"}[type(op)]
+                    if isinstance(op, ast.Lt) and a == v and b == f"{ex}.upper":
+                        sym, changed = "<=", True
+                    elif isinstance(op, ast.Gt) and b == v and a == f"{ex}.upper":
+                        sym, changed = ">=", True
+                    parts += [sym, seg(bsrc, operands[k + 1])]
+                if changed:
+                    edits3 += [(c, " ".join(parts)), (r.value.elts[1], f"{ex}.lower")]  # type: ignore[attr-defined]
+        add(CONTROLS[2][0], BOUNDS, edits3)
+    msrc = prog.module(MAT).source
+    ct = prog.func(f"{MAT}:Matryoshka.calculate_target_power")
+    cparents = parent_map(ct.node)
+    rm = [n for n in body_walk(ct.node) if isinstance(n, ast.Expr) and isinstance(n.value, ast.Call)
+          and isinstance(n.value.func, ast.Attribute) and n.value.func.attr in ("remove", "discard")]
+    if len(rm) == 1:
+        holder = cparents.get(rm[0])
+        victim: ast.AST = holder if isinstance(holder, ast.If) and len(holder.body) == 1 and not holder.orelse else rm[0]
+        add(CONTROLS[3][0], MAT, [(victim, "pass")])
+    drop = prog.func(f"{MAT}:Matryoshka.drop_old_proposals")
+    flips = {ast.Gt: "<", ast.Lt: ">", ast.GtE: "<=", ast.LtE: ">="}
+    for f in reachable_code(prog, drop):
+        if f.module.name != prog.module(MAT).name:
+            continue
+        cmps = [n for n in body_walk(f.node) if isinstance(n, ast.Compare) and len(n.ops) == 1 and type(n.ops[0]) in flips]
+        if len(cmps) == 1:
+            c = cmps[0]
+            add(CONTROLS[4][0], MAT, [(c, f"{seg(msrc, c.left)} {flips[type(c.ops[0])]} {seg(msrc, c.comparators[0])}")])
+            break
+    hs = prog.cls(f"{BASE}:Proposal").methods.get("__hash__")
+    if hs is not None:
+        rets_h = [n for n in body_walk(hs.node) if isinstance(n, ast.Return) and n.value is not None]
+        if len(rets_h) == 1:
+            add(CONTROLS[5][0], BASE, [(rets_h[0].value, f"hash({hs.params[0]}.source_id)")])  # type: ignore[list-item]
+    calc = prog.func(f"{MAT}:Matryoshka._calc_target_power")
+    for f in reachable_code(prog, calc):
+        if f.module.name != prog.module(MAT).name:
+            continue
+        mx = [n for n in body_walk(f.node) if isinstance(n, ast.Call) and isinstance(n.func, ast.Name) and n.func.id == "max"]
+        if len(mx) == 1:
+            add(CONTROLS[6][0], MAT, [(mx[0].func, "min")])
+            break
+    out = []
+    for name, module, old, new, rule in CONTROLS:
+        if name in built:
+            out.append((name, module, built[name][0], built[name][1], rule))
+        else:
+            out.append((name, module, old, new, rule))
+    return out
 
 
 def env_rules(run: Run, prog: Program, tier: str = "quick") -> None:
@@ -775,14 +1301,18 @@ def check(run: Run, prog: Program, tier: str) -> str:
     run.floor("C03.AGE", 5)
     from ..engine.controls import run_controls
 
-    run_controls(run, CONTROLS, run_rules, tier,
+    run_controls(run, structural_controls(prog), run_rules, tier, base_prog=prog,
                  select=lambda expect: env_rules if expect == "C03.ENV" else other_rules)
     run.assume("system bounds satisfy lower <= 0 <= upper and the exclusion zone contains 0 "
                "(the property's quantifier)")
+    run.assume("expiry is decided on a small-scope model of the buckets (3 groups with 3, 2 and 0 "
+               "proposals, every age independently below / at / above the maximum age)")
     run.extra_cov["exhaustive"] = True
     return ("Order-domain abstract interpretation of the AST: every weak ordering of the symbolic "
             "inputs consistent with the preconditions is explored lazily (three-way forks on "
             "undecided comparisons). clamp_to_bounds and adjust_exclusion_bounds are decided in "
             "full; the sweep is decided by induction (prologue + one generic iteration with every "
-            "proposal shape), which covers any number of proposals. History-freedom, ordering, "
-            "replacement and expiry are effect / sibling / path rules.")
+            "proposal shape), which covers any number of proposals; the roles of its state variables "
+            "are bound by dataflow and private helpers are interpreted. Proposal ordering / equality "
+            "and the expiry sweep are decided in the same domain; history-freedom and replacement "
+            "are rules over the symbolic paths of calculate_target_power.")
